@@ -271,8 +271,8 @@ class Client(object):
         self._flush_pipeline()
         if 'AUTH' not in self.extensions:
             return unknown_command
-        auth_ext = self.extensions.getparam('AUTH')
-        assert auth_ext is not None
+        # The keyword may come without any mechanism.
+        auth_ext = self.extensions.getparam('AUTH') or ''
         advertised = [self._encode(mech_name)
                       for mech_name in auth_ext.split()]
         usable = []
